@@ -4,14 +4,16 @@
    selected  = indices returned by AhocorasickTokenizer(extractors=L).get_extractors(text)
    ref / aho = the two token streams (every word rendered as a string; special tokens
                with type, offsets, groups, editions) and their index lists *)
-EXTENDS Integers, Sequences, FiniteSets, Json, IOUtils, TLC
+EXTENDS Integers, Sequences, FiniteSets, Json, IOUtils, TLC, Hits
 Traces == JsonDeserialize(IOEnv.TRACE_FILE)
 NT == Len(Traces)
 VARIABLES tid, bucket
 NB == 64
 T(t) == Traces[t]
 SetOf(s) == {s[k] : k \in DOMAIN s}
-Clauses == {"C04.noraise", "C13.superset", "C13.stream"}
+ClauseSeq == <<"C04.noraise", "C13.superset", "C13.stream">>
+Clauses == {ClauseSeq[ci] : ci \in DOMAIN ClauseSeq}
+ASSUME PrintT(<<"CLAUSES", ToJson(ClauseSeq)>>)
 Holds(cl, t) ==
   LET tr == T(t) IN
   IF tr.raised # "" THEN cl # "C04.noraise"
@@ -21,6 +23,14 @@ Holds(cl, t) ==
 TInit == tid = 0 /\ bucket \in 0..(NB - 1)
 TNext == tid = 0 /\ (\E t \in {x \in 1..NT : x % NB = bucket} : tid' = t) /\ UNCHANGED bucket
 TSpec == TInit /\ [][TNext]_<<tid, bucket>>
-Judge == tid # 0 => \A cl \in Clauses : Holds(cl, tid) \/ PrintT(<<"FAIL", tid, cl>>)
+Exercised(cl, t) ==
+  LET tr == T(t) IN
+  IF cl = "C04.noraise" THEN TRUE
+  ELSE IF tr.raised # "" THEN FALSE
+  ELSE CASE cl = "C13.superset" -> tr.matching # <<>>
+    [] cl = "C13.stream" -> tr.refix # <<>>
+    [] OTHER -> FALSE
+Judge == tid # 0 => (/\ \A cl \in Clauses : Holds(cl, tid) \/ PrintT(<<"FAIL", tid, cl>>)
+   /\ PrintT(<<"HIT", tid, Mask([ci \in DOMAIN ClauseSeq |-> Exercised(ClauseSeq[ci], tid)])>>))
 Done == tid # 0 => PrintT(<<"DONE", tid>>)
 =============================================================================
